@@ -11,8 +11,8 @@
    (1) the composite theorem about Optimizer::optimize assumes, besides well-formedness [wfd],
        that the plan contains no `Filter(_, False)` and no `Union []` ([novoid]).  These are the
        only shapes whose schema width (`output_schema().len()`, which the rules consult) is not
-       their tuple width; on them the pinned tree really was wrong (second `fix:` commit,
-       corpus case "void-first-union").  The rules that create / remove such shapes are proved
+       their tuple width; on them the pinned tree really was wrong (repaired in /repo: a Union
+       now takes its schema from the first input that has one; corpus case "void-first-union").  The rules that create / remove such shapes are proved
        separately for ALL plans with no hypothesis at all (C05_unconditional_rules);
    (2) JoinPlanner::plan_joins and BooleanSpecializer::specialize are not modelled; for them the
        property is checked by the oracle only (real pass, real execution of both plans).
